@@ -7,6 +7,8 @@ Case lines (every string argument hex, "-" = empty; integers decimal):
   manifest <text> <tok> <expUnix> <ttlNs> <key>
   get <loc> <tok> <signing> <ttlNs> <key> <absent|p<bodyhex>> <nominalNowNs>
   getnow <loc> <tok> <ttlNs> <key> <absent|p<bodyhex>> <nominalNowNs>
+  geturl <rawpath> <none|authheader> <signing> <ttlNs> <key> <absent|p<bodyhex>> <nominalNowNs>
+  kcsign / kcverify: as sign / verify, run through sdk/go/keepclient
   put <body> <tok> <tok2> <signing> <ttlNs> <key> <nominalNowNs>
 
 Time: the Go code reads the real clock. `verify`/`get` cases only carry expiry fields that are
@@ -20,6 +22,7 @@ the drivers report the clock before and after (ns) and the oracle judges against
 import hashlib
 import hmac
 import re
+from urllib.parse import unquote_to_bytes
 
 ID = "C07"
 RULE = ("valid signed locators (hints before/after the signature, tokens with @ + /, keys incl. empty, >64 bytes and "
@@ -46,6 +49,7 @@ TRUSTED = ["executable HMAC-SHA1 in Lean (ArvVerif/Base/SHA1.lean), compared wit
 
 DRIVERS = {
     "sdk": {"kind": "gotest", "pkg": "sdk/go/arvados", "test": "TestVerifC07", "min_chunk": 300},
+    "kc": {"kind": "gotest", "pkg": "sdk/go/keepclient", "test": "TestVerifC07", "min_chunk": 300},
     "ks": {"kind": "gotest", "pkg": "services/keepstore", "test": "TestVerifC07", "min_chunk": 300, "shards": 4},
 }
 
@@ -67,7 +71,9 @@ def U(s):
 
 
 def channel(case):
-    return "ks" if case.startswith(("get ", "put ", "getnow ")) else "sdk"
+    if case.startswith(("kcsign ", "kcverify ")):
+        return "kc"
+    return "ks" if case.startswith(("get ", "put ", "getnow ", "geturl ")) else "sdk"
 
 
 # ----------------------------------------------------------------------------- reference (property text / blob.rb)
@@ -205,6 +211,30 @@ def oracle(case, impl):
     if impl.startswith(("panic", "CRASH", "bad-op", "other-error", "wrong-body")):
         return "driver could not observe a result: " + impl[:200]
     op = f[0]
+    if op == "kcverify":       # keepclient re-exports: same functions, same error values, same regexp
+        if not impl.endswith(" same"):
+            return "keepclient's SignedLocatorRe / error values are not the arvados ones"
+        op, impl = "verify", impl[:-5]
+    if op == "kcsign":
+        op = "sign"
+    if op == "geturl":
+        hdr, signing, ttl, key = (None if f[2] == "none" else U(f[2])), f[3] == "1", int(f[4]), U(f[5])
+        g = impl.split(" ")
+        if g[0] == "200" and signing:
+            # the request as a client means it: percent-decoded path, token after the auth scheme
+            try:
+                path = unquote_to_bytes(U(f[1]))
+            except Exception:
+                return "data returned for an undecodable URL"
+            m = re.match(rb"(?:OAuth2|Bearer)[\t\n\x0c\r ]+([^\n]*)", hdr or b"")
+            tok = m.group(1) if m else b""
+            body = U(g[1]) if len(g) > 1 else b""
+            if hashlib.md5(body).hexdigest().encode() != path[1:33]:
+                return "GET returned data that does not belong to the requested hash"
+            why = judge_verdict("ok", path[1:], tok, ttl, key, side_by_margin(NOMINAL_NOW_S, 0x10000000))
+            if why:
+                return "keepstore returned block data with blob signing on: " + why
+        return None
     if op == "sign":
         loc, tok, exp, ttl, key = U(f[1]), U(f[2]), int(f[3]), int(f[4]), U(f[5])
         got = U(impl)
@@ -325,6 +355,10 @@ def nontrivial_key(case, impl):
     f = case.split(" ")
     if f[0] in ("put", "getnow"):
         return case
+    if f[0] == "geturl":
+        return case if b"A" in U(f[1]) else None
+    if f[0] == "kcsign":
+        return case if U(f[2]) and U(f[5]) else None
     arg = U(f[1])
     if f[0] == "manifest":
         return case if any(BLK.match(t) for t in re.split(rb"[\t\n\x0c\r ]+", arg)) else None
@@ -739,8 +773,71 @@ def gen_ks(rng, tier):
     return cases
 
 
+URLSAFE = set(b"abcdefghijklmnopqrstuvwxyzABCDEFGHIJKLMNOPQRSTUVWXYZ0123456789+@_-.~:,;=!$&'()*")
+
+
+def pct(b, rng, p):
+    """percent-encode every byte outside URLSAFE and, with probability p, any other byte"""
+    out = b""
+    for c in b:
+        if c not in URLSAFE or rng.random() < p:
+            out += (b"%%%02X" if rng.random() < 0.5 else b"%%%02x") % c
+        else:
+            out += bytes([c])
+    return out
+
+
+def url_line(raw, hdr, signing, ttl, key, stored_hash):
+    body = STORED_BY_HASH.get(stored_hash)
+    present = "absent" if body is None else "p" + body.hex()
+    h = "none" if hdr is None else H(hdr)
+    return f"geturl {H(raw)} {h} {1 if signing else 0} {ttl} {H(key)} {present} {NOMINAL_NOW_NS}"
+
+
+def gen_url(rng, tier):
+    """raw request paths (extra slashes, dot segments, percent-escapes, broken escapes) and raw
+    Authorization header values around valid signed locators"""
+    cases = []
+    for _ in range(25 if tier == "quick" else 400):
+        b = Base(rng, stored=0.9)
+        while any(c in b.tok for c in WS + b"\x0b\x00") or not b.tok:
+            b = Base(rng, stored=0.9)
+        L, hh = b.signed, b.unsigned[:32]
+        good = b"Bearer " + b.tok
+        e = lambda x, p=0.0: pct(x, rng, p)
+        paths = [b"/" + e(L), b"/" + e(L, 0.1), b"/" + e(L, 1.0), b"//" + e(L), b"/./" + e(L), b"/x/../" + e(L), b"/../" + e(L),
+                 b"/" + e(L) + b"/", b"/" + e(L) + b"/.", b"/" + e(L) + b"/..", b"/" + e(L) + b"//", b"/%2e/" + e(L), b"/%2E%2e/" + e(L),
+                 b"/" + e(L) + b"%2F", b"/" + e(L) + b"%2fx", b"/" + e(L[:40]) + b"/" + e(L[40:]), b"/" + e(L).replace(b"+", b"%2B"),
+                 b"/" + e(L).replace(b"A", b"%41"), b"/" + e(L) + b"%", b"/" + e(L) + b"%4", b"/" + e(L) + b"%zz", b"/" + e(L) + b"%0a",
+                 b"/" + e(L) + b"%00", b"/" + e(b.unsigned), b"/" + e(b.unsigned) + b"/" + e(L[len(b.unsigned):]), b"/", b"/..", b"/x",
+                 b"/" + e(hh), b"/" + e(hh) + b"/", b"/" + e(hh.upper() + L[32:])]
+        for (l2, t2, ttl2, k2) in rng.sample(field_perturbations(b, rng), 4):
+            if safe_for_clock(l2) and t2 == b.tok and ttl2 == b.ttl and k2 == b.key:
+                paths.append(b"/" + e(l2, 0.05))
+        for raw in (rng.sample(paths, 12) if tier == "quick" else paths):
+            cases.append(url_line(raw, good, True, b.ttl, b.key, hh))
+        ws = lambda: rng.choice([b" ", b"  ", b"\t", b" \t\n ", b"\r\n ", b"\x0c"])
+        hdrs = [good, b"OAuth2 " + b.tok, b"OAuth2" + ws() + b.tok, b"Bearer" + ws() + b.tok, None, b"", b"Bearer", b"Bearer ", b"Bearer" + b.tok,
+                b"bearer " + b.tok, b"BEARER " + b.tok, b"oauth2 " + b.tok, b"Basic " + b.tok, b"Token " + b.tok, b" Bearer " + b.tok,
+                b"Bearerx " + b.tok, b"OAuth2\x0b" + b.tok, b"Bearer\xa0" + b.tok, good + b"\n", good + b"\nx", good + b" ", good + b"\r",
+                b"Bearer " + b.tok[:-1], b"OAuth2 Bearer " + b.tok, b"Bearer OAuth2 " + b.tok, b"Bearer \n" + b.tok + b"\n" + b.tok]
+        for hdr in (rng.sample(hdrs, 10) if tier == "quick" else hdrs):
+            cases.append(url_line(b"/" + e(L), hdr, rng.random() < 0.9, b.ttl, b.key, hh))
+    return cases
+
+
+def gen_kc(rng, tier):
+    """the same sign/verify questions asked through sdk/go/keepclient's re-exports"""
+    n = 60 if tier == "quick" else 3000
+    cases = ["kc" + c for c in gen_sign(rng, "quick")[:n // 3]]
+    vs = gen_verify(rng, "quick")
+    cases += ["kc" + c for c in rng.sample(vs, min(len(vs), n))]
+    return cases
+
+
 def generate(rng, tier):
-    return gen_verify(rng, tier) + gen_sign(rng, tier) + gen_near(rng, tier) + gen_manifest(rng, tier) + gen_ks(rng, tier)
+    return (gen_verify(rng, tier) + gen_sign(rng, tier) + gen_near(rng, tier) + gen_manifest(rng, tier) + gen_ks(rng, tier)
+            + gen_url(rng, tier) + gen_kc(rng, tier))
 
 
 def describe(cases, impl):
@@ -750,15 +847,15 @@ def describe(cases, impl):
         ops[f[0]] = ops.get(f[0], 0) + 1
         if r is None:
             continue
-        if f[0] in ("verify", "near"):
+        if f[0] in ("verify", "near", "kcverify"):
             v = r.split(" ")[0]
             verdicts[v] = verdicts.get(v, 0) + 1
-        if f[0] in ("get", "put", "getnow"):
+        if f[0] in ("get", "put", "getnow", "geturl"):
             s = r.split(" ")[0]
             status[s] = status.get(s, 0) + 1
         if f[0] in ("verify", "near", "sign", "get") and any(x in U(f[2]) for x in (b"@", b"+")):
             tok_special += 1
-        if f[0] == "verify":
+        if f[0] in ("verify", "kcverify"):
             m = STRICT.fullmatch(U(f[1]))
             if m:
                 if m.group(6):
